@@ -189,8 +189,10 @@ class LogicalType(type):  # noqa
         args = []
         resolved = False
         for i, arg in enumerate(cls.args):
-            arg, resolved = resolve_forward_type(arg)
-            if resolved:
+            arg, arg_resolved = resolve_forward_type(arg)
+            if arg_resolved:
+                # (any of the args, not only the last one: Optional['T'] ends with None)
+                resolved = True
                 arg = cls._parse_arg(arg)
             args.append(arg)
         if resolved:
@@ -1913,11 +1915,16 @@ class Rule(metaclass=LogicalType):
     @classmethod
     def resolve_forward_refs(cls):
         # an override version of LogicalType.resolve_forward_refs
+        resolved = False
+        origin = cls.__origin__
+        if isinstance(origin, LogicalType) and origin is not cls:
+            # a rule over a logical type (Optional['T'] is Rule[AnyOf('T', None)]): the late names are in the origin
+            if origin.resolve_forward_refs():
+                resolved = True
         if not cls.__args__:
-            return False
+            return resolved
         args = []
         arg_transformers = []
-        resolved = False
         for arg, trans in zip(cls.__args__, cls.__arg_transformers__):
             if isinstance(arg, LogicalType):
                 # including the Rule class and LogicalType with combinator
